@@ -513,7 +513,7 @@ open Spec
 
 abbrev Key := Nat × Pfx
 
-theorem find?_filter_ne {β} (f : List (Key × β)) (k k' : Key) :
+theorem find?_filter_ne {κ β} [BEq κ] [LawfulBEq κ] [DecidableEq κ] (f : List (κ × β)) (k k' : κ) :
     (f.filter (fun e => !(e.1 == k))).find? (fun e => e.1 == k') =
       if k' = k then none else f.find? (fun e => e.1 == k') := by
   induction f with
@@ -815,5 +815,105 @@ theorem cells_distOpt (cfg : Cfg) {fib : Fib} {p : Pfx} {ps ps' : List Path} {ch
         rw [fibGet_distribute]
         have := distribute_vrf_mem cfg c hs hv hm ht (Or.inr ⟨b, t, he, hi⟩)
         simp [this]
+
+
+-- ---------------------------------------------------------------- reference counts
+
+theorem refGet_refSet (r : Refs) (a b : Addr) (n : Nat) :
+    refGet (refSet r a n) b = if b = a then n else refGet r b := by
+  unfold refGet refSet
+  by_cases h : b = a
+  · subst h; simp
+  · have h' : ¬ a = b := fun e => h e.symm
+    rw [find?_cons]
+    have : (a == b) = false := by simpa using h'
+    simp only [this, find?_filter_ne, h, if_false]
+
+theorem refReplay_append (r : Refs) (a b : List (Bool × Addr)) :
+    refReplay r (a ++ b) = (refReplay r a).bind (fun r' => refReplay r' b) := by
+  induction a generalizing r with
+  | nil => simp [refReplay]
+  | cons x a ih =>
+    obtain ⟨k, ad⟩ := x
+    cases k
+    · simp only [cons_append, refReplay]
+      split
+      · simp
+      · exact ih _
+    · simp only [cons_append, refReplay]; exact ih _
+
+/-- number of peer-learned paths of a destination using next hop `a` -/
+def usesPaths (a : Addr) (ps : List Path) : Nat := (ps.filter (fun p => isPeer p.src && p.nh == a)).length
+
+theorem usesPaths_perm {a : Addr} {l l' : List Path} (h : l.Perm l') : usesPaths a l = usesPaths a l' :=
+  (h.filter _).length_eq
+
+theorem usesPaths_cons (a : Addr) (x : Path) (l : List Path) :
+    usesPaths a (x :: l) = usesPaths a l + (if isPeer x.src = true ∧ x.nh = a then 1 else 0) := by
+  unfold usesPaths
+  by_cases h : isPeer x.src = true ∧ x.nh = a
+  · simp [filter_cons, h.1, h.2]
+  · have : (isPeer x.src && x.nh == a) = false := by
+      cases h1 : isPeer x.src <;> simp_all
+    simp [filter_cons, this, h]
+
+theorem usesPaths_map {a : Addr} {g : Path → Path} {l : List Path}
+    (hg : ∀ x, (g x).src = x.src ∧ (g x).nh = x.nh) : usesPaths a (l.map g) = usesPaths a l := by
+  induction l with
+  | nil => rfl
+  | cons x l ih => simp [usesPaths_cons, ih, hg x]
+
+/-- replay of `register new; unregister old?` -/
+theorem refReplay_reg_unreg {refs : Refs} {c : Addr → Nat} (nh : Addr) (old : Option Addr)
+    (h : ∀ a, refGet refs a = c a + (match old with | some o => if a = o then 1 else 0 | none => 0)) :
+    ∃ refs', refReplay refs ((true, nh) :: (match old with | some o => [(false, o)] | none => [])) = some refs' ∧
+      ∀ a, refGet refs' a = c a + (if a = nh then 1 else 0) := by
+  cases old with
+  | none =>
+    have e : refReplay refs [(true, nh)] = some (refSet refs nh (refGet refs nh + 1)) := by simp [refReplay]
+    refine ⟨_, e, ?_⟩
+    intro a
+    rw [refGet_refSet]
+    have := h a
+    have hn := h nh
+    simp only at this hn
+    by_cases ha : a = nh
+    · subst ha; simp; omega
+    · simp [ha]; omega
+  | some o =>
+    have ho := h o
+    simp only [if_true] at ho
+    have hne : refGet (refSet refs nh (refGet refs nh + 1)) o ≠ 0 := by
+      rw [refGet_refSet]; split <;> omega
+    have e : refReplay refs [(true, nh), (false, o)] = some (refSet (refSet refs nh (refGet refs nh + 1)) o
+        (refGet (refSet refs nh (refGet refs nh + 1)) o - 1)) := by simp [refReplay, hne]
+    refine ⟨_, e, ?_⟩
+    intro a
+    simp only [refGet_refSet]
+    have ha := h a
+    have hn := h nh
+    simp only at ha hn
+    by_cases h1 : a = o <;> by_cases h2 : a = nh <;> by_cases h3 : o = nh <;>
+      simp [h1, h2, h3] at ha hn ho ⊢ <;> (try subst_vars) <;> (try simp_all) <;> omega
+
+def countAddr (a : Addr) (l : List Addr) : Nat := (l.filter (· == a)).length
+
+theorem refReplay_unregs {refs : Refs} {c : Addr → Nat} (l : List Addr)
+    (h : ∀ a, refGet refs a = c a + countAddr a l) :
+    ∃ refs', refReplay refs (l.map (fun a => (false, a))) = some refs' ∧ ∀ a, refGet refs' a = c a := by
+  induction l generalizing refs with
+  | nil => exact ⟨refs, by simp [refReplay], by intro a; simpa [countAddr] using h a⟩
+  | cons x l ih =>
+    have hx := h x
+    have hne : refGet refs x ≠ 0 := by simp [countAddr] at hx; omega
+    simp only [map_cons, refReplay, hne, if_false]
+    apply ih
+    intro a
+    rw [refGet_refSet]
+    have := h a
+    by_cases ha : a = x
+    · subst ha; simp [countAddr] at this ⊢; omega
+    · have hxa : ¬ x = a := fun e => ha e.symm
+      simp [ha, countAddr, filter_cons, hxa] at this ⊢; omega
 
 end Rbgp.Fib
